@@ -185,7 +185,10 @@ def check(pm: ProgramModel, ctx: Ctx) -> None:
     pv = {k: values[k] for k in ("none", "bool", "false", "int", "zero", "float", "float-integral", "empty-str", "str",
                                  "str-true", "str-number", "str-null", "empty-list", "list", "map", "map-keyed-name",
                                  "float-17-digits", "int-beyond-2**53")}
-    fr = Fragment(names=dict(NAME_CLASSES), ops=tuple(BINARY_LOGICAL), values=pv)
+    fr = Fragment(names=dict(NAME_CLASSES), ops=tuple(BINARY_LOGICAL), values=pv,
+                  attr_names={"plain": "attr", "space": "cost per unit", "like-the-flag": "abstract", "like-the-key-name": "name",
+                              "like-the-key-value": "value", "like-the-key-type": "type", "like-the-key-relations": "relations",
+                              "unicode": "pre\u00e7o", "quote": 'a"b', "empty-looking": " "})
     ctx.analysed.update({f"C05:pairwise-{k_}": v for k_, v in sweep(
         cd, mb, fr, ("name", "root", "parent", "relation", "constraint", "constraint-count", "constraint-name", "abstract",
                      "attribute")).items()})
